@@ -763,6 +763,9 @@ def make_case(rng, size, pos, evaluator, budget, noise, reuse, descend=None):
         "reuse": reuse,
         "C": rng.choice([4, 4, 1.5, 0.5, 8]),
         "cutoff": 1e-6,
+        # the caller changes the exploration constant of the live engine AFTER the search and asks for
+        # the distributions of the same tree again (C09: the multiplier is the engine's C as it stands)
+        "report_C": rng.choice([None, None, None, 2.5, 0.75]),
     }
 
 
